@@ -160,7 +160,7 @@ bool cache::save(std::ostream &out) const
 
   std::size_t num(0);
   for (const auto &s : table_)
-    if (!s.hash.empty())
+    if (s.seal == seal_ && !s.hash.empty())
       ++num;
   out << num << '\n';
 
